@@ -43,9 +43,7 @@ impl Prop for C02 {
         let stores: [Vec<Rec>; 2] = [vec![rec(10, &title, 5)], vec![rec(10, &title, 5), rec(20, &t2, 9)]];
         let menu = marker_menu(l);
         for (si, recs) in stores.iter().enumerate() {
-            let Ok(mut st) = cx.build(l, recs, None, Some((SENT_LS, SENT_RS))) else {
-                return;
-            };
+            let Some(mut st) = cx.build_noted(l, recs, None, Some((SENT_LS, SENT_RS))) else { return };
             cx.state();
             let expected: Vec<(usize, String)> = recs.iter().map(|r| (r.0, strip_nul(&ref_compose(inv, &chars(&r.1))).into_iter().collect::<String>())).collect();
             let mut alt: Vec<St> = Vec::new();
